@@ -765,6 +765,29 @@ def pred(ctx):
                     if d[3]["k"] in ("ref", "discr"):
                         work.append({"c": d[3]["place"]})
                     work.extend(d[3].get("ops", []))
+                    if d[3]["k"] == "agg" and d[3].get("agg") == "closure" and d[3].get("closure") in crate.fns:
+                        # a closure that produces the nodes (`flat_map(|e| &self.ends[e])`,
+                        # `once_with(|| self.eos.as_ref().unwrap())`): what it reads of self
+                        caps = [E.ap_operand(fa, o) for o in d[3]["ops"]]
+                        cfa = E.fa(d[3]["closure"])
+
+                        def scan(x):
+                            if isinstance(x, dict):
+                                if "l" in x and "p" in x and isinstance(x["l"], int):
+                                    cap_ = E.ap_place(cfa, x)
+                                    pm = Effects.map_closure_ap(cap_, caps) if cap_ is not None else None
+                                    if pm is not None and pm.root == ("arg", 1) and pm.proj[:1] in (("eos",), ("ends",)):
+                                        covered.add(str(pm.proj[0]))
+                                    return
+                                for k_, v_ in x.items():
+                                    if k_ not in ("sp", "fn_sp", "func"):
+                                        scan(v_)
+                            elif isinstance(x, list):
+                                for v_ in x:
+                                    scan(v_)
+                        for bb_ in cfa.blocks:
+                            scan(bb_["stmts"])
+                            scan(bb_["term"])
     ctx.ob("PRED", "right-nodes-cover-ends-and-eos", covered == {"eos", "ends"}, fn_loc(crate, p),
            "connections are counted for every node of the lattice and for EOS" if covered == {"eos", "ends"} else
            "connections are counted for %s only: the connection %s is missing from the statistics"
